@@ -254,6 +254,7 @@ impl LangInterpreter for French {
             if i < 2 {
                 continue;
             }
+            b.reset();
             if matches!(
                 tokens[true_words[i - 2]].text_lowercase(),
                 "un" | "le" | "du" | "l'"
